@@ -134,8 +134,8 @@ async def direct(ctx: Any, mon: Mon, params: dict[str, Any]) -> None:
                 ctx.reach("long-requests")
             cfg["session"] = d.server.state.session
             mon.cur = {**cfg, "history": hist[-20:], "request": q}
-            raw = d.is_raw(q)
             try:
+                raw = d.is_raw(q)
                 reply, _ = await d.transport.handle_request(q)
             except Exception as e:
                 ctx.violation(f"raises/{type(e).__name__}/sid-{q[0]:02x}", "virtual ECU raises while answering a request (the connection loop would drop the client)", {**mon.cur, "error": repr(e)})
